@@ -143,6 +143,7 @@ func init() {
 		runScenarios(rep, c06Scenarios(t))
 		cs := &chain.CrashStats
 		rep.Set("evaluations", int(cs.Images))
+		engineAtomicity(rep, t)
 		rep.Set("distinct_nontrivial", int(cs.Distinct))
 		rep.Set("rule", "cases = for every transition the explorer takes (every event of every explored history: block arrival, sync walk, walk to any block, play, submit, mine, truncate, prune), every prefix 0..n of the storage writes (single puts and atomic batches, across the ledger and the state database, in issue order) that the event made: the node is reopened on base image + prefix and judged (ledger structure, state = replay of its own chain, conservation, then synchronisation to the ledger tip). A case is non-trivial when the prefix ends strictly inside the event (0 < k < n: some of the event's writes are durable, the rest lost); distinct = distinct (event kind, normalised write prefix) among those. A write is atomic (leveldb batch / put granularity): torn batches are outside the model")
 		rep.Set("crash_events_enumerated", int(cs.Events))
